@@ -145,7 +145,13 @@ func groupEntries(iter *entryIterator) (s lokiapi.Streams, _ error) {
 		return s, err
 	}
 
-	result := maps.Values(streams)
+	// Return streams in order of their keys, so result does not depend on map iteration order.
+	keys := maps.Keys(streams)
+	slices.Sort(keys)
+	result := make(lokiapi.Streams, 0, len(keys))
+	for _, key := range keys {
+		result = append(result, streams[key])
+	}
 	for _, stream := range result {
 		slices.SortFunc(stream.Values, func(a, b lokiapi.LogEntry) int {
 			return cmp.Compare(a.T, b.T)
